@@ -56,7 +56,7 @@ from .api import scenario, CheckFailed, Skip, REPO
 from . import shapes, spec, assumptions
 
 assumptions.PROPS['C17'] = {'level': 'other', 'assume': ['A1', 'A2', 'A4', 'A5', 'A6'],
-                            'explanation': 'Engine B only: the same query is run under two configurations of the real code and '
+                            'explanation': 'Engine A: the two span searches satisfy the same (unique) postcondition, so they agree.  Engine B: the same query is run under two configurations of the real code and '
                                            'the answers are proved identical (symbolic parameter / knots / control points for the '
                                            'span function, evaluator and normalize_kv parts; concrete data for the cache size and '
                                            'process count parts).  Process schedules are not explored: the multi-process claim '
